@@ -1,12 +1,19 @@
 #!/bin/bash
-# every seeded change against the quick check(s) of its own property (plus the checks named in its meta as catching it elsewhere)
+# tools/own_matrix.sh [id ...]
+# every seeded change (or the ones named) against the quick check(s) of its own property, plus the checks
+# its meta names as catching it elsewhere. Latest rounds first. Run inside a `vp run` snapshot only
+# (seeded_matrix.sh works in scratch worktrees through VERIF_REPO and deletes build directories).
 cd "$(dirname "$0")/.."
-for d in seeded/*/; do
-  id=$(basename $d); [ -f $d/patch.diff ] || continue
+ids="$*"
+[ -z "$ids" ] && ids=$(ls -d seeded/*/ | xargs -n1 basename | sort -r)
+mkdir -p /tmp/wt
+for id in $ids; do
+  d=seeded/$id; [ -f $d/patch.diff ] || continue
   prop=$(python3 -c "import json;print(json.load(open('$d/meta.json'))['property'])" 2>/dev/null || echo "")
   [ -z "$prop" ] && prop=$(echo $id | sed 's/.*-\(C[0-9][0-9]\).*/\1/')
   extra=""
-  case $id in agent4-C18) extra="C17";; agent4-C12) extra="C18";; agent4-C20) extra="C01";; agent3-C06) extra="C15";; esac
+  case $id in agent4-C18) extra="C17";; agent4-C12) extra="C18";; agent4-C20) extra="C01";; agent3-C06) extra="C15";;
+              agent5-C13) extra="C17";; agent6-C06) extra="C12";; agent6-C08) extra="C12";; agent6-C18) extra="C12";; esac
   CHECKS="$prop $extra" MATRIX_OUT=/tmp/wt/own_$id.tsv tools/seeded_matrix.sh $id
 done
 cat /tmp/wt/own_*.tsv > /tmp/wt/own_matrix_all.tsv
